@@ -411,8 +411,8 @@ func checkText(c textCase) error {
 		pbt.Class("generic-form-of-known-type")
 		return nil
 	}
-	if blankInName(rr) && pbt.Known("name-token-with-blank") {
-		pbt.Excluded("name-token-with-blank")
+	if (blankInName(rr) || gluedQuote(c.Text)) && pbt.Known("separator-token-unchecked") {
+		pbt.Excluded("separator-token-unchecked")
 		return nil
 	}
 	// a header-only line (dynamic-update form) has no presentation of its own
@@ -532,15 +532,48 @@ func blankInName(rr dns.RR) bool {
 	return false
 }
 
+// gluedQuote reports whether a quoted string in the text touches a neighbouring token without a
+// blank between them (`0" a "v`, `"A"x.`). The per-type parsers skip the token after a field
+// without looking at it, so the glued neighbour is taken for the separator (known finding
+// separator-token-unchecked).
+func gluedQuote(text string) bool {
+	sep := func(b byte) bool { return b == ' ' || b == '\t' || b == '\n' || b == '\r' || b == '(' || b == ')' }
+	in := false
+	for i := 0; i < len(text); i++ {
+		switch b := text[i]; {
+		case b == '\\':
+			i++
+		case b == ';' && !in:
+			for i < len(text) && text[i] != '\n' {
+				i++
+			}
+		case b == '"' && !in:
+			if i > 0 && !sep(text[i-1]) {
+				return true
+			}
+			in = true
+		case b == '"':
+			if i+1 < len(text) && !sep(text[i+1]) && text[i+1] != ';' {
+				return true
+			}
+			in = false
+		}
+	}
+	return false
+}
+
 func init() {
 	pbt.Probe("octet-over-255-text", func() error {
 		return checkRec(recCase{R: wm.Rec{Name: wm.MustName("a."), Type: wm.TURI, Class: 1, TTL: 5, Fields: []wm.Field{{K: wm.U16, U: 1}, {K: wm.U16, U: 1}, {K: wm.Rest, B: bytes.Repeat([]byte("u"), 256)}}}})
 	})
-	pbt.Probe("name-token-with-blank", func() error {
-		in := `a. 0 IN NAPTR 0 0 "" ""` + strings.Repeat(".", 257) + `" "" .`
-		rr, err := parse(in)
+	pbt.Probe("separator-token-unchecked", func() error {
+		rr, err := parse(`a. 0 IN NAPTR 0 0 "" "." "A"x.`)
 		if err == nil && blankInName(rr) {
 			return pbt.Errf("accepted with Replacement=%q", rr.(*dns.NAPTR).Replacement)
+		}
+		rr, err = parse(`a. 0 IN CAA 0" a "v`)
+		if err == nil && rr.(*dns.CAA).Tag == " a " {
+			return pbt.Errf("accepted with Tag=%q", rr.(*dns.CAA).Tag)
 		}
 		return nil
 	})
